@@ -209,7 +209,7 @@ Qed.
 
 (* A qualified name selects the named namespace's rule, whatever the current namespace and
    its imports are. *)
-Lemma lookup_qualified s cur q n : has_dot n = false -> lookup s cur (q ++ DOT :: n) = lookup_in s q n.
+Lemma lookup_qualified s cur q n : has_dot n = false -> lookup s cur (q ++ DOT :: n) = lookup_qual s q n.
 Proof. intro Hd. rewrite lookup_src_doc. unfold lookup_doc. rewrite (rsplit1_qualified _ _ Hd). reflexivity. Qed.
 
 (* ------------------------------------------------------------------ the cyclic-import defect *)
@@ -448,21 +448,21 @@ Section Inv.
   Definition id_inj (s : st) : Prop := forall a n c a' n' c',
     lookup_in s a n = Some c -> lookup_in s a' n' = Some c' -> c_id c = c_id c' -> a = a' /\ n = n'.
   Definition sync (s : st) : Prop := akeys (spaces s) = akeys (imported s).
-  Definition CF (s : st) : Prop := sync s /\ cls_inv s /\ id_inj s.
+  Definition CF (s : st) : Prop := sync s /\ cls_inv s /\ id_inj s /\ reflangs s = [].
 
   Lemma CF_same s s' : spaces s' = spaces s -> akeys (imported s') = akeys (imported s) -> created s' = created s ->
-    CF s -> CF s'.
+    reflangs s' = reflangs s -> CF s -> CF s'.
   Proof.
-    intros Hs Hi Hc (A & B & C). unfold CF, sync, cls_inv, id_inj, lookup_in in *. rewrite Hs, Hi, Hc.
-    split; [|split]; assumption.
+    intros Hs Hi Hc Hr (A & B & C & D). unfold CF, sync, cls_inv, id_inj, lookup_in in *. rewrite Hs, Hi, Hc, Hr.
+    split; [|split; [|split]]; assumption.
   Qed.
 
   Lemma CF_init : CF init.
   Proof.
     assert (L : forall a n c, lookup_in init a n = Some c -> a = BASE /\ aget n base_dict = Some c).
-    { intros a n c. unfold lookup_in, init; cbn [spaces aget]. destruct (str_eqb a BASE) eqn:E; [|discriminate].
+    { intros a n c. unfold lookup_in, init, init_with; cbn [spaces aget]. destruct (str_eqb a BASE) eqn:E; [|discriminate].
       apply str_eqb_eq in E. intro H. split; assumption. }
-    split; [reflexivity|]. split.
+    split; [reflexivity|]. split; [|split; [|reflexivity]].
     - intros a n c H. apply L in H as [-> H]. apply base_lookup in H as (H1 & H2 & H3 & H4 & _).
       repeat split; try assumption. left. split; [reflexivity | assumption].
     - intros a n c a' n' c' H H' Hid. apply L in H as [-> H]. apply L in H' as [-> H'].
@@ -472,7 +472,7 @@ Section Inv.
 
   Lemma CF_enter a s : has_ns s a = false -> CF s -> CF (enter a s).
   Proof.
-    intros Hn (A & B & C). split; [|split].
+    intros Hn (A & B & C & D). split; [|split; [|split; [|exact D]]].
     - unfold sync, enter, akeys in *; cbn [spaces imported]. rewrite !map_app, A. reflexivity.
     - intros b n c H. rewrite lookup_in_enter in H by exact Hn. apply B in H. exact H.
     - intros b n c b' n' c' H H'. rewrite lookup_in_enter in H, H' by exact Hn. apply C; assumption.
@@ -486,10 +486,10 @@ Section Inv.
   Lemma CF_new_class ns f r s : serr s = None -> aget ns fs = Some f -> In r (grules f) ->
     CF s -> CF (new_class ns r s).
   Proof.
-    intros He Hf Hr (A & B & C).
+    intros He Hf Hr (A & B & C & D).
     assert (Hcr : created (new_class ns r s) = S (created s)).
     { unfold new_class. apply has_err_false in He. rewrite He. reflexivity. }
-    split; [|split].
+    split; [|split; [|split; [|unfold new_class; destruct (has_err s); exact D]]].
     - unfold sync, new_class. destruct (has_err s); [exact A|]. cbn [spaces imported]. rewrite akeys_aupd. exact A.
     - intros a n c H. rewrite lookup_in_new_class in H by exact He. rewrite Hcr.
       destruct (str_eqb a ns && has_ns s ns && str_eqb n (rname r)) eqn:E.
@@ -515,7 +515,7 @@ Section Inv.
     - auto.
     - intros e t _. apply CF_same; reflexivity.
     - intros a t _. apply CF_enter.
-    - intros cur a t _. apply CF_same; [reflexivity | cbn [imported add_imported]; apply akeys_aupd | reflexivity].
+    - intros cur a t _. apply CF_same; [reflexivity | cbn [imported add_imported]; apply akeys_aupd | reflexivity | reflexivity].
     - intros cur a t _. apply CF_same; reflexivity.
     - intros n t _. apply CF_same; reflexivity.
     - intros n f r t. apply CF_new_class.
@@ -526,7 +526,7 @@ End Inv.
 (* ------------------------------------------------------------------ resolution = documented order *)
 Lemma BC_init n : is_base n = true -> lookup_in init BASE n <> None.
 Proof.
-  unfold lookup_in, init; cbn [spaces aget]. replace (str_eqb BASE BASE) with true by (vm_compute; reflexivity).
+  unfold lookup_in, init, init_with; cbn [spaces aget]. replace (str_eqb BASE BASE) with true by (vm_compute; reflexivity).
   unfold is_base, mem_str, base_dict, base_names.
   cbn [existsb number_from map aget fst snd].
   repeat (destruct (str_eqb n _); [intros _ H; discriminate H|]). cbn [orb]. discriminate.
@@ -587,10 +587,11 @@ Section Main.
   Qed.
 
   Lemma ready_lookup ns f s name c : Ready ns f s -> (rsplit1 name = None -> OkImps ns f s name) ->
-    cls_inv fs s -> DI s -> BC s ->
+    reflangs s = [] -> cls_inv fs s -> DI s -> BC s ->
     lookup s ns name = Some c -> Some (cls_key c) = spec_resolve fs ns name.
   Proof.
-    intros (Hf & Hown & Himp) Hdone B D Hbc. rewrite lookup_src_doc. unfold lookup_doc, spec_resolve.
+    intros (Hf & Hown & Himp) Hdone Hnr B D Hbc. rewrite lookup_src_doc. unfold lookup_doc, spec_resolve, lookup_qual.
+    rewrite Hnr. cbn [aget].
     destruct (rsplit1 name) as [[q n]|] eqn:Er; [|specialize (Hdone eq_refl)].
     - intro E. apply B in E as (H1 & H2 & _ & Hd). unfold cls_key. rewrite H1, H2.
       destruct (defines fs q n); [reflexivity|]. destruct Hd as [[-> Hb]|Hd]; [|discriminate].
@@ -729,10 +730,11 @@ Section Main2.
 
   Lemma Good_same stk s s' :
     spaces s' = spaces s -> akeys (imported s') = akeys (imported s) -> created s' = created s ->
+    reflangs s' = reflangs s ->
     done s' = done s -> links s' = links s -> serr s' = serr s -> incl (backs s) (backs s') ->
     Good stk s -> Good stk s'.
   Proof.
-    intros Hs Hi Hc Hd Hl He Hb (G1 & G2 & G3 & G4 & G5 & G6).
+    intros Hs Hi Hc Hr Hd Hl He Hb (G1 & G2 & G3 & G4 & G5 & G6).
     split; [congruence|]. split; [eapply CF_same; eassumption|].
     unfold BC, DI, LK, OS, lookup_in, has_ns in *. rewrite Hs, Hd, Hl.
     split; [exact G3|]. split; [exact G4|]. split; [|exact G6].
@@ -782,7 +784,7 @@ Section Main2.
         - discriminate. }
       rewrite (proj2 (has_err_false s1)) by congruence. intros _.
       assert (HG1 : Good (ns :: stk) s1).
-      { apply (Good_same _ t); try congruence. apply Eb. }
+      { apply (Good_same _ t); try congruence; [unfold s1; destruct (mem_str a (ns :: stk)); reflexivity | apply Eb]. }
       split; [|split; [|split; [|split; [|split]]]].
       + apply (Good_same _ s1); try reflexivity; [|apply incl_refl|exact HG1]. cbn [imported add_imported]. apply akeys_aupd.
       + unfold has_ns in *. cbn [spaces add_imported]. rewrite E1. exact Hns.
@@ -929,7 +931,7 @@ Section Main2.
                  (split; [exact Hr|]); apply in_or_app; [left | right]; exact Hn. }
              destruct Hshape as (Hn & Htg & Hfn). unfold link_ok. rewrite Hn.
              destruct (l_target l) as [c|] eqn:Et; [|contradiction]. cbn [option_map].
-             eapply (ready_lookup fs Hbase); [exact Hready | apply Hok; assumption | apply Hcf2 | exact Hdi2 | exact Hbc2 | symmetry; exact Htg].
+             eapply (ready_lookup fs Hbase); [exact Hready | apply Hok; assumption | apply Hcf2 | apply Hcf2 | exact Hdi2 | exact Hbc2 | symmetry; exact Htg].
         * intros a Ha. change (has_ns s2 a = true) in Ha. rewrite C6 in Ha.
           cbn [done log_done add_links]. destruct (Hos1 a Ha) as [H|[H|[H|H]]].
           -- left; exact H.
@@ -954,7 +956,7 @@ Section Top.
 
   Lemma has_ns_init k : has_ns init k = true -> k = BASE.
   Proof.
-    unfold has_ns, init; cbn [spaces aget]. destruct (str_eqb k BASE) eqn:E; [|discriminate].
+    unfold has_ns, init, init_with; cbn [spaces aget]. destruct (str_eqb k BASE) eqn:E; [|discriminate].
     intros _. apply str_eqb_eq. exact E.
   Qed.
 
@@ -975,7 +977,7 @@ Section Top.
       + left. apply has_ns_init. exact Ha.
       + apply str_eqb_eq in Ha. subst. right; right; left; reflexivity.
     - rewrite has_ns_enter, str_eqb_refl. apply orb_true_r.
-    - apply imports_of_enter_new. cbn [imported init aget].
+    - apply imports_of_enter_new. unfold init, init_with; cbn [imported aget].
       destruct (str_eqb main BASE) eqn:E; [apply str_eqb_eq in E; contradiction | reflexivity].
   Qed.
 
@@ -1023,7 +1025,7 @@ Section Top.
   Proof.
     intros He name c H. destruct (main_ready He) as (f & Hr & Hok).
     destruct (main_result He) as ((_ & Hcf & Hbc & Hdi & _) & _).
-    eapply (ready_lookup fs Hbase); [exact Hr | intros _; apply Hok | apply Hcf | exact Hdi | exact Hbc | exact H].
+    eapply (ready_lookup fs Hbase); [exact Hr | intros _; apply Hok | apply Hcf | apply Hcf | exact Hdi | exact Hbc | exact H].
   Qed.
 
   Lemma final_lookup_none : serr (load_main_doc fs main) = None -> forall name, has_dot name = false ->
@@ -1039,14 +1041,14 @@ Section Top.
   Lemma classes_fqn : forall a n c, lookup_in (load_main_doc fs main) a n = Some c ->
     c_ns c = a /\ c_name c = n /\ fqn c = (if str_eqb a BASE then n else a ++ DOT :: n).
   Proof.
-    intros a n c H. destruct CF_main as (_ & B & _). apply B in H as (H1 & H2 & _).
+    intros a n c H. destruct CF_main as (_ & B & _ & _). apply B in H as (H1 & H2 & _).
     split; [exact H1|]. split; [exact H2|]. rewrite fqn_src_doc. unfold fqn_doc. rewrite H1, H2. reflexivity.
   Qed.
 
   Lemma classes_distinct : forall a n c a' n' c',
     lookup_in (load_main_doc fs main) a n = Some c -> lookup_in (load_main_doc fs main) a' n' = Some c' ->
     c_id c = c_id c' -> a = a' /\ n = n'.
-  Proof. destruct CF_main as (_ & _ & C). exact C. Qed.
+  Proof. destruct CF_main as (_ & _ & C & _). exact C. Qed.
 End Top.
 
 (* ------------------------------------------------------------------ every file is read once *)
@@ -1368,53 +1370,57 @@ Lemma new_import_doc_ext rec rec' stk cur imp s : (forall a t, rec a t = rec' a 
   new_import_doc rec stk cur imp s = new_import_doc rec' stk cur imp s.
 Proof. intro H. unfold new_import_doc. rewrite H. reflexivity. Qed.
 
-Lemma load_src_doc fs main : has_dot main = false ->
+Lemma load_src_doc fs main : has_dot main = false -> no_refs fs ->
   forall fuel stk ns s, load main fuel fs stk ns s = load_doc fuel fs stk ns s.
 Proof.
-  intro Hm. induction fuel as [|fuel IH]; intros stk ns s; cbn [load load_doc]; [reflexivity|].
-  destruct (has_err s); [reflexivity|]. destruct (aget ns fs) as [f|]; [|reflexivity].
+  intros Hm Hnr. induction fuel as [|fuel IH]; intros stk ns s; cbn [load load_doc]; [reflexivity|].
+  destruct (has_err s); [reflexivity|]. destruct (aget ns fs) as [f|] eqn:Hf; [|reflexivity].
+  rewrite (Hnr ns f Hf). change (add_refs [] (log_load ns s)) with (log_load ns s).
   unfold imports_in_text_order, second_pass_inside_import. cbv zeta.
   rewrite (fold_left_ext _ (fun s imp => new_import_doc (load_doc fuel fs (ns :: stk)) (ns :: stk) ns imp s)); [reflexivity|].
   intros a b. rewrite (new_import_src_doc _ _ _ _ _ _ Hm). apply new_import_doc_ext. intros x t. apply IH.
 Qed.
 
-Lemma load_main_src_doc fs main : has_dot main = false -> load_main fs main = load_main_doc fs main.
-Proof. intro Hm. unfold load_main, load_main_doc, second_pass_inside_import. cbv zeta. apply load_src_doc. exact Hm. Qed.
+Lemma load_main_src_doc fs main : has_dot main = false -> no_refs fs -> load_main fs main = load_main_doc fs main.
+Proof.
+  intros Hm Hnr. unfold load_main, load_main_with, load_main_doc, second_pass_inside_import. cbv zeta.
+  apply load_src_doc; assumption.
+Qed.
 
 (* the statements about metamodel_from_file as the source performs it *)
-Lemma links_spec_src fs main : has_dot main = false -> aget BASE fs = None -> main <> BASE ->
+Lemma links_spec_src fs main : has_dot main = false -> no_refs fs -> aget BASE fs = None -> main <> BASE ->
   serr (load_main fs main) = None -> backs (load_main fs main) = [] ->
   forall l, In l (links (load_main fs main)) -> link_ok fs l.
-Proof. intro Hm. rewrite (load_main_src_doc _ _ Hm). apply links_spec. Qed.
+Proof. intros Hm Hnr. rewrite (load_main_src_doc _ _ Hm Hnr). apply links_spec. Qed.
 
-Lemma links_spec_safe_src fs main : has_dot main = false -> aget BASE fs = None -> main <> BASE ->
+Lemma links_spec_safe_src fs main : has_dot main = false -> no_refs fs -> aget BASE fs = None -> main <> BASE ->
   serr (load_main fs main) = None -> safe fs (load_main fs main) = true ->
   forall l, In l (links (load_main fs main)) -> link_ok fs l.
-Proof. intro Hm. rewrite (load_main_src_doc _ _ Hm). apply links_spec_safe. Qed.
+Proof. intros Hm Hnr. rewrite (load_main_src_doc _ _ Hm Hnr). apply links_spec_safe. Qed.
 
-Lemma final_lookup_src fs main : has_dot main = false -> aget BASE fs = None -> main <> BASE -> serr (load_main fs main) = None ->
+Lemma final_lookup_src fs main : has_dot main = false -> no_refs fs -> aget BASE fs = None -> main <> BASE -> serr (load_main fs main) = None ->
   forall name c, lookup (load_main fs main) main name = Some c -> Some (cls_key c) = spec_resolve fs main name.
-Proof. intro Hm. rewrite (load_main_src_doc _ _ Hm). apply final_lookup. Qed.
+Proof. intros Hm Hnr. rewrite (load_main_src_doc _ _ Hm Hnr). apply final_lookup. Qed.
 
-Lemma final_lookup_none_src fs main : has_dot main = false -> aget BASE fs = None -> main <> BASE -> serr (load_main fs main) = None ->
+Lemma final_lookup_none_src fs main : has_dot main = false -> no_refs fs -> aget BASE fs = None -> main <> BASE -> serr (load_main fs main) = None ->
   forall name, has_dot name = false -> lookup (load_main fs main) main name = None -> spec_resolve fs main name = None.
-Proof. intro Hm. rewrite (load_main_src_doc _ _ Hm). apply final_lookup_none. Qed.
+Proof. intros Hm Hnr. rewrite (load_main_src_doc _ _ Hm Hnr). apply final_lookup_none. Qed.
 
-Lemma classes_fqn_src fs main : has_dot main = false -> main <> BASE ->
+Lemma classes_fqn_src fs main : has_dot main = false -> no_refs fs -> main <> BASE ->
   forall a n c, lookup_in (load_main fs main) a n = Some c ->
     c_ns c = a /\ c_name c = n /\ fqn c = (if str_eqb a BASE then n else a ++ DOT :: n).
-Proof. intro Hm. rewrite (load_main_src_doc _ _ Hm). apply classes_fqn. Qed.
+Proof. intros Hm Hnr. rewrite (load_main_src_doc _ _ Hm Hnr). apply classes_fqn. Qed.
 
-Lemma one_class_set_src fs main : has_dot main = false -> main <> BASE ->
+Lemma one_class_set_src fs main : has_dot main = false -> no_refs fs -> main <> BASE ->
   (forall a n c a' n' c',
      lookup_in (load_main fs main) a n = Some c -> lookup_in (load_main fs main) a' n' = Some c' ->
      c_id c = c_id c' -> a = a' /\ n = n') /\
   (serr (load_main fs main) = None ->
    created (load_main fs main) = length base_names + nrules_of fs (loads (load_main fs main))).
-Proof. intro Hm. rewrite (load_main_src_doc _ _ Hm). apply one_class_set. Qed.
+Proof. intros Hm Hnr. rewrite (load_main_src_doc _ _ Hm Hnr). apply one_class_set. Qed.
 
-Lemma loads_once_src fs main : has_dot main = false -> main <> BASE -> NoDup (loads (load_main fs main)).
-Proof. intro Hm. rewrite (load_main_src_doc _ _ Hm). apply loads_once. Qed.
+Lemma loads_once_src fs main : has_dot main = false -> no_refs fs -> main <> BASE -> NoDup (loads (load_main fs main)).
+Proof. intros Hm Hnr. rewrite (load_main_src_doc _ _ Hm Hnr). apply loads_once. Qed.
 
-Lemma load_main_terminates_src fs main : has_dot main = false -> serr (load_main fs main) <> Some EFuel.
-Proof. intro Hm. rewrite (load_main_src_doc _ _ Hm). apply load_main_terminates. Qed.
+Lemma load_main_terminates_src fs main : has_dot main = false -> no_refs fs -> serr (load_main fs main) <> Some EFuel.
+Proof. intros Hm Hnr. rewrite (load_main_src_doc _ _ Hm Hnr). apply load_main_terminates. Qed.
